@@ -82,6 +82,7 @@ func c11Run(c *Ctx) {
 		o.Surround, o.Use64, o.TopExtra = g.Bool(), g.Bool(), g.Bool()
 		o.Tail = g.Intn(3)
 		o.Brands = c.L("gen:x").Intn(13) // ftyp with up to 12 further compatible brands
+		o.BrandsNoMajor = c.L("gen:y").Chance(1, 3)
 		if y := c.L("gen:y"); y.Chance(1, 3) {
 			o.Top64 = 1 + y.Intn(7) // moov / xpacket / preview boxes with 64-bit sizes
 		}
